@@ -9,27 +9,31 @@ META = dict(
     model_run='PG.Model.JsonRun.run',
     model_targets=['Model/Json.vo', 'Model/JsonText.vo', 'Model/MemFS.vo', 'Model/MemSeq.vo', 'Model/JsonRun.vo'],
     technique=('Coq proofs over executable models of (1) symbolic to_json/from_json and the int-key encoding of the string form, '
-               '(2) the in-memory file system with pg.save/pg.load and line sequences on it, (3) in-memory record sequences; '
-               'differential correspondence of each model against the implementation on generated values and histories; '
+               '(2) the JSON text layer (json.dumps / json.loads), (3) the keyword tables of value specs / key specs / Field / Schema, regenerated from the source by a fail-closed translator, '
+               '(4) the in-memory file system with pg.save/pg.load and line sequences on it, (5) in-memory record sequences; '
+               'differential correspondence of each model against the implementation on generated values, texts and histories; '
                'direct oracle (pg.eq / type / pg.hash / value specs / tree well-formedness / last-write-wins dictionary) on both file systems, pickle and deepcopy'),
     design_ref='DESIGN.md §5 C05',
     instance_obligations=['generated_tables_ok (Proofs/JsonFieldsInstance.v: table_ok Gen.JsonFields.classes = true by vm_compute, re-checked on the keyword tables regenerated from the current value_specs.py / class_schema.py / key_specs.py)'],
-    level_text=('Theorems: from_json (to_json v) = v and the string form of_str (to_str v) = v for every value outside the reserved encodings (each reservation has a refuted witness), '
-                'to_json is injective there; on the in-memory file system, for every history of save / write / append / rm / mkdirs / line-sequence operations over arbitrary '
-                'path strings, reading a path returns exactly the text of the last successful write to a path with the same components (refinement to a last-writer map), '
-                'and pg.load returns the last value saved; record sequences return exactly the records appended since the last truncating open. '
-                'Tie: the models are run against the implementation on every generated value (all shapes, depth <= 4, int / bool / reserved keys, special floats, control and astral '
-                'characters) and on every generated history (look-alike paths under /mem/), and the oracle evaluates the property text on the real objects, including the standard file '
-                'system, pickle, deepcopy, classes, functions, value specs, DNA specs and DNA.'),
-    level_note=('Trusted: Coq kernel; extraction (ExtrOcamlBasic) cross-checked against vm_compute; the harness conversion between Python values and the wire trees. '
-                'Modelled as Section variables with a stated hypothesis: json.dumps / json.loads (loads (dumps j) = j on string-keyed trees, checked on every case by the harness). '
-                'Not modelled (oracle only): the operating-system file system, pickle, copy.deepcopy, to_json of classes / functions / value specs / DNASpec / DNA, typed fields of pg.Object.'),
+    level_text=('Theorems: from_json (to_json v) = v and from_json_str (to_json_str v) = v for every value outside the reserved encodings (each reservation has a refuted witness), with the JSON text layer '
+                'itself modelled and json.loads (json.dumps j) = j proved (for finite floats only their repr/float() round trip is assumed; nothing is assumed for values without finite floats); '
+                'to_json is injective; for every class whose to_json goes through to_json_dict(exclude_default=True) the regenerated keyword table is checked and the drop-defaults / cls(kwargs) round trip is proved; '
+                'on the in-memory file system, for every history of save / write / append / rm / mkdirs / line-sequence operations over arbitrary path strings, reading a path returns exactly the text of the last '
+                'successful write to a path with the same components (refinement to a last-writer map; pure form over prefix-free path families where every save succeeds), and pg.load returns the last value saved; '
+                'record sequences return exactly the records appended since the last truncating open. '
+                'Tie: the models are run against the implementation on every generated value (all shapes, depth <= 4, int / bool / reserved keys, special floats, control and astral characters), on JSON texts '
+                '(other spellings and damaged texts) and on every generated history (look-alike paths under /mem/); the keyword tables are regenerated from the source on every run; the oracle evaluates the property '
+                'text on the real objects, including the standard file system, pickle, deepcopy, classes, functions, random value specs, schemas, DNA specs and DNA.'),
+    level_note=('Trusted: Coq kernel; extraction (ExtrOcamlBasic) cross-checked against vm_compute; the harness conversion between Python values and the wire trees; the translator harness/translators/json_fields.py; '
+                'the hand-written whitelist never_default of Model/JsonFields.v (constructor arguments that can never equal their exclusion constant). '
+                'Assumed: float repr / float() round trip for the finite floats of a value (per-value hypothesis floats_ok). '
+                'Not modelled (oracle only): the operating-system file system, pickle, copy.deepcopy, to_json of classes / functions / DNASpec / DNA, typed fields of pg.Object, the values inside value specs.'),
     rule=('a case is a value (wire tree) x conversion kind, a JSON tree x decoding kind, a file-system history or a sequence history; distinct by the complete input; '
           'non-trivial when the value has a container or a non-ASCII/control character or special float, a history has at least one successful write followed by a read'),
     trusted_base=['extraction: ExtrOcamlBasic only; ocaml/main.ml lexer/printer; cross-checked against vm_compute on a sample',
                   'harness/props/c05.py converts Python values / JSON objects / file trees to wire trees (py_to_pv, json_to_jv, dump_memfs)'],
-    assumptions=['json.dumps / json.loads are Section variables (Model/Json.v Section Text, Proofs/JsonStrProofs.v Section TextLayer) with the hypothesis loads (dumps j) = Some j for sj_ok j (string keys, distinct, no adjacent surrogate pair); '
-                 'the harness checks this equation with Python\'s json on every generated case',
+    assumptions=['float repr / float(): for the finite floats m/2^e occurring in a value, float_repr m e is a number token that is not an int token and parse_float_tok reads it back (Proofs/JsonTextProofs.v floats_ok); '
+                 'everything else of json.dumps / json.loads is modelled (Model/JsonText.v) and compared with Python\'s json on generated texts',
                  'Python int() accepts more spellings than the model\'s parse_int ([+-]?[0-9]+): blanks, underscores, non-ASCII digits; they occur only after the reserved key prefix n_:'],
 )
 
@@ -1184,6 +1188,16 @@ def run(ctx):
   cases, impl_outs, descr = [], [], []
   def add_case(tree, impl, d):
     cases.append(tree); impl_outs.append(impl); descr.append(d)
+  # wall-clock budget of the quick tier: each section stops generating when its share is used up (reported in the evidence)
+  import time as _time
+  budget = None if ctx.thorough else float(os.environ.get('VERIF_C05_BUDGET', '70'))
+  skipped = {}
+  def over(section, done, planned, share):
+    if budget is not None and _time.time() - ctx.t0 > budget * share:
+      skipped[section] = dict(done=done, planned=planned)
+      return True
+    return False
+  ctx.extra['skipped_for_time'] = skipped
 
   # ---- (a) values ------------------------------------------------------------------------------
   corpus = [
@@ -1198,7 +1212,8 @@ def run(ctx):
     values.append(vg.value(r.choice([0, 1, 2, 2, 3, 3, 4])))
   hyp_checked = 0
   oracle_evals = 0
-  for t in values:
+  for vi, t in enumerate(values):
+    if vi > len(corpus) and over('values', vi, len(values), 0.35): break
     try:
       pv_to_py(t)
     except Exception:
@@ -1241,7 +1256,8 @@ def run(ctx):
 
   # ---- (a') decoding of JSON trees near the image -------------------------------------------------
   nmut = ctx.scale(1200, 8000)
-  for _ in range(nmut):
+  for mi in range(nmut):
+    if over('json-mutants', mi, nmut, 0.45): break
     t = vg.value(r.choice([1, 2, 3]))
     try:
       pv_to_py(t)
@@ -1268,6 +1284,7 @@ def run(ctx):
   made = 0
   vg_nf = ValueGen(r, None)
   while made < ntext:
+    if over('texts', made, ntext, 0.6): break
     t = vg_nf.value(r.choice([0, 1, 2, 3]))
     if not no_finite_float(t):
       continue
@@ -1295,6 +1312,7 @@ def run(ctx):
   nhist = ctx.scale(600, 4000)
   std_base = os.path.join(ctx.workdir, 'std')
   for i in range(nhist):
+    if i > 20 and over('fs-histories', i, nhist, 0.8): break
     ops = gen_fs_history(r, vg_plain, r.randint(4, 30))
     mo, texts, dump, hits = fs_oracle_pair(ops, os.path.join(std_base, 'h%d' % i))
     add_case([1, fs_case_tree(ops, texts)], [mo, dump], dict(part='fs', ops=ops))
@@ -1310,6 +1328,7 @@ def run(ctx):
   # ---- (c) record sequences ------------------------------------------------------------------------
   nseq = ctx.scale(600, 4000)
   for i in range(nseq):
+    if i > 20 and over('seq-histories', i, nseq, 0.9): break
     disciplined = i % 2 == 0
     ops = gen_seq_history(r, vg_plain, r.randint(3, 25), disciplined)
     outs, final, hits = run_seq_history(ops, disciplined)
@@ -1323,6 +1342,7 @@ def run(ctx):
   njl = ctx.scale(150, 800)
   std_jl = os.path.join(ctx.workdir, 'jl'); os.makedirs(std_jl, exist_ok=True)
   for i in range(njl):
+    if i > 10 and over('jsonl', i, njl, 0.95): break
     fresh_memfs()
     from pyglove.core.io import sequence as sq
     sq._registry._registry['mem'] = sq.MemorySequenceIO()
@@ -1344,7 +1364,9 @@ def run(ctx):
     os.chdir(cwd)
 
   # ---- (d) classes, functions, value specs, DNA specs, DNA: oracle only ---------------------------
-  for kind, name, make in special_objects() + random_specials(r, ctx.scale(300, 4000), vg_plain):
+  fixed_specials = special_objects()
+  for si, (kind, name, make) in enumerate(fixed_specials + random_specials(r, ctx.scale(300, 4000), vg_plain)):
+    if si >= len(fixed_specials) and over('random-specials', si - len(fixed_specials), ctx.scale(300, 4000), 1.0): break
     try:
       hits = special_oracle(kind, name, make)
     except Exception as e:
